@@ -1,14 +1,24 @@
 """
 C14 - dependence functions are fitted within bounds, optimally, in dependency order.
 
-Part A (protocol).  Operation histories (declarations + public `fit` calls, one or two rounds,
-random longer ones) are executed on real `DependenceFunction` objects whose `_fit` is wrapped by a
-recorder (the real `_fit` still runs) and on the Lean state machine (Model/DepProtocol.lean);
-event logs, `_may_fit`, stored x/y, `_fitted_conditioners`, version counters and the versions each
-`_fit` saw are compared exactly.  Oracle on the real objects: every fitted function's parameters are
-the exact least-squares fit of its stored data given the *current* parameters of its conditioners;
-after every function has been called every function is fitted and the parameters equal those of a
-fit in dependency order (order independence).  The same through `ConditionalDistribution.fit`.
+Part A (protocol).  Operation histories (declarations + public `fit` calls, one to three rounds with
+DIFFERENT pairs per round, complete and partial rounds, random longer ones) are executed on real
+`DependenceFunction` objects and on the Lean state machine (Model/DepProtocol.lean).  Recorders
+(inside this process only; the real code still runs) wrap `DependenceFunction.fit` (public calls:
+which x/y objects were handed over, in which round), `DependenceFunction._fit` and
+`virocon.dependencies.fit_function` / `fit_constrained_function` (for every `_fit`: which function
+object, which x/y OBJECTS reached the optimiser, which `p0`).  The x/y objects are mapped back to
+the epoch of the public call that supplied them, `p0` to a token (0 = the parameter values the
+constructor put in place, k = the result of the k-th fit of that function); the resulting detailed
+event log (function, data epoch, start-value token, number of the public call) and the final
+`_may_fit`, stored x/y (+ their epoch), `_fitted_conditioners`, version counters, versions each
+`_fit` saw are compared exactly with the model.  Oracle on the real objects: every `_fit` received
+the pairs of the latest public `fit` call on its function; every `_fit` started from the initial
+parameter values; every fitted function's parameters are the exact least-squares fit of the pairs
+of its latest public call given the *current* parameters of its conditioners; after every function
+has been called every function is fitted and the parameters equal those of a fresh set of objects
+fitted in dependency order to the same latest pairs (order independence, re-fit = fresh fit).
+The same through `ConditionalDistribution.fit`.
 
 Part B (numerics).  `convert_bounds_for_curve_fit` vs `convertBounds` (bit-exact); the dispatch
 (which optimiser, start, sigma, bounds, constraints) vs `dispatch`, observed through recorders
@@ -107,6 +117,11 @@ PFUNCS = [_f0, _f1, _f2, _f3]
 PX = np.array([0.5, 1.0, 2.0, 3.0, 4.5])
 
 
+def proto_x(h, r):
+    """abscissae of function h in round r (every round has its own pairs)"""
+    return PX * (1.0 + 0.25 * r) + 0.0625 * h
+
+
 def proto_y(h, r):
     """data of function h in round r (deterministic, generic)"""
     g = np.random.default_rng(7919 * (r + 1) + 31 * h)
@@ -123,21 +138,58 @@ def build_objects(decls):
     return objs
 
 
+def _same_content(a, b):
+    try:
+        return bool(np.array_equal(np.asarray(a, dtype=float), np.asarray(b, dtype=float)))
+    except Exception:  # noqa: BLE001
+        return False
+
+
 class FitRecorder:
-    """wraps DependenceFunction._fit (class level, inside this process); the real _fit still runs"""
+    """Recorders inside this process (the real code still runs):
+    * `DependenceFunction.fit`: the PUBLIC calls (depth 0; the `self.fit(self.x, self.y)` of a callback is nested)
+      with the x/y objects handed over and the round (`self.round`, set by the harness) they belong to;
+    * `DependenceFunction._fit`: the `_fit` executions (versions, versions seen);
+    * `virocon.dependencies.fit_function` / `fit_constrained_function`: what reaches the optimiser for every
+      `_fit`: function object, x/y objects, p0; and what comes back."""
 
     def __init__(self, objs):
+        self.objs = objs
         self.index = {id(o): i for i, o in enumerate(objs)}
         self.counts = [0] * len(objs)
         self.seen = {}
         self.log = []
+        self.round = 0
+        self.depth = 0
+        self.calls = 0
+        self.public = [[] for _ in objs]  # per function: public calls {call, epoch, x, y} (objects kept alive)
+        self.public_seq = []  # (function, epoch) in call order
+        self.fit_events = []  # what `_fit` received
+        self.opt_events = []  # what reached the optimiser
+        self.results = [[] for _ in objs]  # per function: parameter tuples returned by the optimiser
+        self.initial = [tuple(float(v) for v in o.parameters.values()) for o in objs]
 
     def __enter__(self):
-        from virocon.dependencies import DependenceFunction
+        import virocon.dependencies as D
 
-        self.cls = DependenceFunction
-        self.orig = DependenceFunction._fit
+        self.D = D
+        self.cls = D.DependenceFunction
+        self.orig = D.DependenceFunction._fit
+        self.orig_fit = D.DependenceFunction.fit
+        self.orig_ff, self.orig_fcf = D.fit_function, D.fit_constrained_function
         rec = self
+
+        def fit(obj, x, y):
+            h = rec.index.get(id(obj))
+            if h is not None and rec.depth == 0:
+                rec.calls += 1
+                rec.public[h].append({"call": rec.calls, "epoch": rec.round, "x": x, "y": y})
+                rec.public_seq.append((h, rec.round))
+            rec.depth += 1
+            try:
+                return rec.orig_fit(obj, x, y)
+            finally:
+                rec.depth -= 1
 
         def _fit(obj, x, y):
             h = rec.index.get(id(obj))
@@ -145,16 +197,96 @@ class FitRecorder:
                 rec.seen[h] = list(rec.counts)
                 rec.counts[h] += 1
                 rec.log.append(h)
+                rec.fit_events.append({"fn": h, "x": x, "y": y, "call": rec.calls})
             return rec.orig(obj, x, y)
 
-        DependenceFunction._fit = _fit
+        def wrap_opt(orig):
+            def opt(func, x, y, p0, *a, **kw):
+                h = rec.index.get(id(func))
+                if h is not None:
+                    ev = {"fn": h, "x": x, "y": y, "p0": tuple(float(v) for v in p0), "call": rec.calls,
+                          "n_public": len(rec.public[h])}
+                    rec.opt_events.append(ev)
+                popt = orig(func, x, y, p0, *a, **kw)
+                if h is not None:
+                    rec.results[h].append(tuple(float(v) for v in popt))
+                return popt
+
+            return opt
+
+        D.DependenceFunction.fit = fit
+        D.DependenceFunction._fit = _fit
+        D.fit_function = wrap_opt(self.orig_ff)
+        D.fit_constrained_function = wrap_opt(self.orig_fcf)
         return self
 
     def __exit__(self, *a):
         self.cls._fit = self.orig
+        self.cls.fit = self.orig_fit
+        self.D.fit_function, self.D.fit_constrained_function = self.orig_ff, self.orig_fcf
+
+    # ---- mapping the observed objects back to epochs / tokens ----------
+    def epoch_of(self, h, arr, key, upto=None):
+        """(epoch, is_latest, how) of the object `arr` among the public calls on h (first `upto` calls): by
+        identity, else by content; (None, False, 'unknown') when it is none of them"""
+        pcs = self.public[h] if upto is None else self.public[h][:upto]
+        if not pcs:
+            return None, False, "no-public-call"
+        for how, same in (("identity", lambda a, b: a is b), ("content", _same_content)):
+            hits = [i for i, pc in enumerate(pcs) if same(pc[key], arr)]
+            if hits:
+                i = hits[-1]
+                latest = (i == len(pcs) - 1) or _same_content(pcs[-1][key], arr)
+                return pcs[i]["epoch"], latest, how
+        # the pairs of ANOTHER function?
+        for g, other in enumerate(self.public):
+            if g != h and any(pc[key] is arr for pc in other):
+                return None, False, f"object handed to function {g}"
+        return None, False, "unknown"
+
+    def p0_token(self, h, p0, n_results):
+        """0 = the values the constructor put in place; k = result of the k-th fit of h; None = neither"""
+        if p0 == self.initial[h]:
+            return 0
+        for k in range(n_results, 0, -1):
+            if self.results[h][k - 1] == p0:
+                return k
+        return None
+
+    def events(self):
+        """the `_fit` executions as observed at the optimiser interface, resolved"""
+        out = []
+        nres = [0] * len(self.objs)
+        for ev in self.opt_events:
+            h = ev["fn"]
+            ex, lx, hx = self.epoch_of(h, ev["x"], "x", ev["n_public"])
+            ey, ly, hy = self.epoch_of(h, ev["y"], "y", ev["n_public"])
+            want = self.public[h][ev["n_public"] - 1]["epoch"] if ev["n_public"] else None
+            out.append({"fn": h, "data": ex if ex == ey else None, "ex": ex, "ey": ey, "latest": lx and ly,
+                        "how": hx if hx == hy else f"x:{hx} y:{hy}", "want": want,
+                        "p0": self.p0_token(h, ev["p0"], nres[h]), "p0_values": ev["p0"], "call": ev["call"]})
+            nres[h] += 1
+        return out
+
+    def stored_epoch(self, h):
+        o = self.objs[h]
+        if not (hasattr(o, "x") and hasattr(o, "y")):
+            return None
+        ex = self.epoch_of(h, o.x, "x")[0]
+        ey = self.epoch_of(h, o.y, "y")[0]
+        return ex if ex == ey and ex is not None else "?"
+
+
+def _tok(v):
+    return "-" if v is None else v
 
 
 def _state(objs, rec, decls):
+    evs = rec.events()
+    first_p0, last_data = {}, {}
+    for e in evs:
+        first_p0.setdefault(e["fn"], e["p0"] if e["p0"] is not None else "?")
+        last_data[e["fn"]] = e["data"] if e["data"] is not None else "?"
     return {
         "log": list(rec.log),
         "may": "".join("1" if o._may_fit else "0" for o in objs),
@@ -163,7 +295,39 @@ def _state(objs, rec, decls):
         "seen": [rec.seen[h][g] if h in rec.seen else 0 for h, cs in enumerate(decls) for g in cs],
         "fitted": [sorted(rec.index[id(g)] for g in o._fitted_conditioners) for o in objs],
         "params": [[float(v) for v in o.parameters.values()] for o in objs],
+        # inputs of the fits
+        "xyE": [_tok(rec.stored_epoch(h)) for h in range(len(objs))],
+        "lastData": [_tok(last_data.get(h)) for h in range(len(objs))],
+        "p0At": [_tok(first_p0.get(h)) for h in range(len(objs))],
+        "calls": rec.calls,
+        "ev": [[e["fn"], "?" if e["data"] is None else e["data"], "?" if e["p0"] is None else e["p0"], e["call"]]
+               for e in evs],
+        "fit_vs_opt": [[e["fn"], e["call"]] for e in rec.fit_events] == [[e["fn"], e["call"]] for e in rec.opt_events]
+        and all(a["x"] is b["x"] and a["y"] is b["y"] for a, b in zip(rec.fit_events, rec.opt_events)),
+        "ev_detail": [{k: e[k] for k in ("fn", "ex", "ey", "latest", "how", "want", "p0", "p0_values", "call")}
+                      for e in evs],
     }
+
+
+def inputs_oracle(st):
+    """property clauses about the inputs of every `_fit` (on the real code's own record)"""
+    bad = []
+    for k, e in enumerate(st["ev_detail"]):
+        if not e["latest"]:
+            bad.append(("fit_receives_latest_pairs",
+                        f"_fit #{k + 1} (function {e['fn']}, during public call {e['call']}) received x of epoch "
+                        f"{e['ex']} / y of epoch {e['ey']} ({e['how']}), but the latest public fit call on function "
+                        f"{e['fn']} supplied the pairs of epoch {e['want']}"))
+            break
+    for k, e in enumerate(st["ev_detail"]):
+        if e["p0"] != 0:
+            what = "neither the initial values nor an earlier result" if e["p0"] is None \
+                else f"the result of fit #{e['p0']} of that function"
+            bad.append(("start_values_are_initial",
+                        f"_fit #{k + 1} (function {e['fn']}, during public call {e['call']}) started the optimiser "
+                        f"from {list(e['p0_values'])} = {what}, not from the initial parameter values"))
+            break
+    return bad
 
 
 def run_history_impl(case):
@@ -176,7 +340,8 @@ def run_history_impl(case):
             err = None
             try:
                 for f, r in ops:
-                    objs[f].fit(PX, proto_y(f, r))
+                    rec.round = r
+                    objs[f].fit(proto_x(f, r), proto_y(f, r))  # fresh objects for every call
             except Exception as e:  # noqa: BLE001
                 err = f"{type(e).__name__}: {str(e)[:120]}"
         st = _state(objs, rec, decls)
@@ -192,11 +357,44 @@ def _ref_params(decls, last_round):
         warnings.simplefilter("ignore")
         objs = build_objects(decls)
         for h in range(len(decls)):
-            objs[h].fit(PX, proto_y(h, last_round[h]))
+            objs[h].fit(proto_x(h, last_round[h]), proto_y(h, last_round[h]))
     return [[float(v) for v in o.parameters.values()] for o in objs]
 
 
 _REF_CACHE = {}
+
+
+def final_complete_round(N, ops):
+    """epoch r if the history ends with a complete round of epoch r (every function called with epoch r after the
+    last call of any other epoch), else None"""
+    if not ops:
+        return None
+    r = ops[-1][1]
+    tail = set()
+    for f, e in reversed(ops):
+        if e != r:
+            break
+        tail.add(f)
+    return r if tail == set(range(N)) else None
+
+
+def graph_kinds(decls):
+    """chained (a conditioner that has a conditioner), diamond (two conditioners with a common ancestor),
+    double binding (a conditioner bound to two keywords)"""
+    anc = []
+    for cs in decls:
+        a = set()
+        for g in cs:
+            a |= {g} | anc[g]
+        anc.append(a)
+    kinds = []
+    if any(decls[g] for cs in decls for g in cs):
+        kinds.append("chained")
+    if any(({a} | anc[a]) & ({b} | anc[b]) for cs in decls for a in set(cs) for b in set(cs) if a < b):
+        kinds.append("diamond")
+    if any(len(set(cs)) < len(cs) for cs in decls):
+        kinds.append("double-binding")
+    return kinds
 
 
 def history_oracle(case, objs, st):
@@ -207,7 +405,10 @@ def history_oracle(case, objs, st):
     if "err" in st:
         bad.append(("history_raises", st["err"]))
         return bad
-    # every fitted function = exact least squares of its stored data, given the current conditioners
+    # the inputs of every `_fit`: latest pairs, initial start values
+    bad += inputs_oracle(st)
+    # every fitted function = exact least squares of the pairs of its latest public call, given the current
+    # conditioners
     anc_fitted = []  # h and all functions it (transitively) uses have been fitted
     for h in range(N):
         anc_fitted.append(st["ver"][h] > 0 and all(anc_fitted[g] for g in decls[h]))
@@ -216,17 +417,17 @@ def history_oracle(case, objs, st):
         # callback; the property speaks about functions whose conditioners have been fitted)
         if not anc_fitted[h]:
             continue
-        o = objs[h]
-        if decls[h]:
-            s = sum(np.asarray(objs[g](PX), dtype=float) for g in decls[h])
-        else:
-            s = PX
-        rows = [[Fraction(1), fr(v)] for v in s]
         # the data of this function's LAST public fit call, taken from the history itself (not from what the
-        # object happens to have stored: a stale or missing o.y is exactly what must not go unnoticed)
+        # object happens to have stored: a stale or missing o.x / o.y is exactly what must not go unnoticed)
         last_round = [r for f, r in ops if f == h]
         if not last_round:
             continue
+        xh = proto_x(h, last_round[-1])
+        if decls[h]:
+            s = sum(np.asarray(objs[g](xh), dtype=float) for g in decls[h])
+        else:
+            s = xh
+        rows = [[Fraction(1), fr(v)] for v in s]
         y = [fr(v) for v in np.asarray(proto_y(h, last_round[-1]), dtype=float)]
         sol = exact_lsq(rows, y, [Fraction(1)] * len(y))
         if sol is None:
@@ -235,14 +436,14 @@ def history_oracle(case, objs, st):
         got = st["params"][h]
         if not close_params(got, want):
             bad.append(("fitted_after_conditioners",
-                        f"function {h}: parameters {got} but the fit of its data given the current "
-                        f"parameters of its conditioners {decls[h]} is {want}"))
+                        f"function {h}: parameters {got} but the fit of the pairs of its latest public call (round "
+                        f"{last_round[-1]}) given the current parameters of its conditioners {decls[h]} is {want}"))
     called = {f for f, _ in ops}
     if called == set(range(N)):
         for h in range(N):
             if st["ver"][h] == 0:
                 bad.append(("all_called_all_fitted", f"function {h} was fit-called but never fitted"))
-        if not bad:
+        if not any(b[0] == "all_called_all_fitted" for b in bad):
             last = {}
             for f, r in ops:
                 last[f] = r
@@ -253,15 +454,29 @@ def history_oracle(case, objs, st):
             for h in range(N):
                 if not close_params(st["params"][h], ref[h]):
                     bad.append(("order_independent",
-                                f"function {h}: {st['params'][h]} differs from dependency-order fit {ref[h]}"))
+                                f"function {h}: {st['params'][h]} differs from {ref[h]}, the parameters of fresh objects "
+                                f"fitted in dependency order to the pairs of every function's latest public call"))
+    r_end = final_complete_round(N, ops)
+    if r_end is not None:
+        lastev = {}
+        for e in st["ev_detail"]:
+            lastev[e["fn"]] = e
+        for h in range(N):
+            e = lastev.get(h)
+            if e is not None and not (e["ex"] == r_end and e["ey"] == r_end):
+                bad.append(("complete_round_last_fit_uses_round_pairs",
+                            f"the history ends with a complete round of epoch {r_end}, but the last _fit of function "
+                            f"{h} ran on x of epoch {e['ex']} / y of epoch {e['ey']}"))
+                break
     return bad
 
 
-def history_model_line(case):
-    toks = ["RUN", "proto", str(len(case["decls"]))]
+def history_model_line(case, op="proto"):
+    toks = ["RUN", op, str(len(case["decls"]))]
     for cs in case["decls"]:
         toks += il(cs)
     toks += il([f for f, _ in case["ops"]])
+    toks += il([r for _, r in case["ops"]])
     return toks
 
 
@@ -271,10 +486,10 @@ def parse_proto(ans, decls):
         return {"err": " ".join(t[1:])}
     p = 1
 
-    def nats():
+    def nats(opt=False):
         nonlocal p
         k = int(t[p])
-        out = [int(v) for v in t[p + 1:p + 1 + k]]
+        out = [("-" if v == "-" else int(v)) if opt else int(v) for v in t[p + 1:p + 1 + k]]
         p += 1 + k
         return out
 
@@ -285,15 +500,24 @@ def parse_proto(ans, decls):
     ver = nats()
     seen = nats()
     fitted = [sorted(nats()) for _ in decls]
-    return {"log": log, "may": may, "xy": xy, "ver": ver, "seen": seen, "fitted": fitted}
+    xyE, last, p0at = nats(True), nats(True), nats(True)
+    calls = int(t[p])
+    nev = int(t[p + 1])
+    p += 2
+    ev = [[int(v) for v in t[p + 4 * i:p + 4 * i + 4]] for i in range(nev)]
+    return {"log": log, "may": may, "xy": xy, "ver": ver, "seen": seen, "fitted": fitted,
+            "xyE": xyE, "lastData": last, "p0At": p0at, "calls": calls, "ev": ev}
 
 
 def compare_history(st, m):
     if "err" in m:
         return "model refuses the history: " + m["err"]
-    for k in ("log", "may", "xy", "ver", "seen", "fitted"):
+    for k in ("log", "may", "xy", "ver", "seen", "fitted", "calls", "ev", "xyE", "lastData", "p0At"):
         if st[k] != m[k]:
-            return f"{k}: impl={st[k]} model={m[k]}"
+            return f"{k}: impl={st[k]} model={m[k]}" + (
+                "   (ev = [function, data epoch, start-value token, public call number] per _fit)" if k == "ev" else "")
+    if not st["fit_vs_opt"]:
+        return "the _fit executions and the optimiser calls do not correspond one to one (function, x/y objects)"
     return None
 
 
@@ -359,6 +583,46 @@ def history_cases(ck, rng, thorough):
         for L in range(1, 6):
             for seq in itertools.product(range(N), repeat=L):
                 yield {"kind": "history", "gen": "exhaustive-seq", "decls": decls, "ops": [[f, 0] for f in seq]}
+    # (2b) rounds with different pairs per round: chains, diamonds, a function bound twice, random DAGs; every round
+    #      in a random order (= order of the parameters dict); complete and partial rounds, 1..3 rounds
+    for _ in range(20000 if thorough else 700):
+        shape = str(rng.choice(["chain", "diamond", "double", "random"]))
+        if shape == "chain":
+            N = int(rng.integers(2, 6))
+            decls = [[]] + [[h - 1] for h in range(1, N)]
+        elif shape == "diamond":
+            decls = [[], [0], [0], [1, 2]] if rng.integers(0, 2) else [[], [0], [0], [2, 1]]
+            if rng.integers(0, 2):
+                decls = decls + [[3]]
+            if rng.integers(0, 3) == 0:
+                decls = decls + [[0, len(decls) - 1]]
+        elif shape == "double":
+            decls = [[], [0, 0]]
+            if rng.integers(0, 2):
+                decls = decls + [[1]]
+            if rng.integers(0, 2):
+                decls = decls + [[0, len(decls) - 1, len(decls) - 1]]
+        else:
+            N = int(rng.integers(2, 7))
+            decls = []
+            for h in range(N):
+                k = int(rng.integers(0, min(h, 3) + 1))
+                decls.append([int(v) for v in rng.choice(h, size=k, replace=bool(rng.integers(0, 6) == 0))] if k else [])
+        N = len(decls)
+        n_rounds = int(rng.integers(1, 4))
+        ops, kinds = [], []
+        for r in range(n_rounds):
+            if rng.integers(0, 10) < (8 if r == n_rounds - 1 else 6):
+                order = [int(f) for f in rng.permutation(N)]
+                if rng.integers(0, 8) == 0:  # a function fitted twice within the round
+                    order.insert(int(rng.integers(0, N + 1)), int(rng.integers(0, N)))
+                kinds.append("complete")
+            else:
+                k = int(rng.integers(1, N))
+                order = [int(f) for f in rng.permutation(N)[:k]]
+                kinds.append("partial")
+            ops += [[f, r] for f in order]
+        yield {"kind": "history", "gen": "rounds", "shape": shape, "rounds": kinds, "decls": decls, "ops": ops}
     # (3) random longer histories on random DAGs with 5..7 functions
     for _ in range(6000 if thorough else 150):
         N = int(rng.integers(5, 8))
@@ -401,6 +665,22 @@ def process_histories(ck, cases, pool=None):
         ck.count(f"history:N={N}")
         if len(st["log"]) > len(case["ops"]):
             ck.count("history:cascade(re-fit by callback)")
+        epochs = sorted({r for _, r in case["ops"]})
+        ck.count(f"history:rounds={len(epochs)}")
+        per_round = {r: {f for f, rr in case["ops"] if rr == r} for r in epochs}
+        if any(fs != set(range(N)) for fs in per_round.values()):
+            ck.count("history:partial-round(only some functions re-fitted)")
+        if final_complete_round(N, case["ops"]) is not None:
+            ck.count("history:ends-with-complete-round")
+            if len(epochs) > 1:
+                ck.count("history:re-fit(complete final round on new pairs)")
+        for kind in graph_kinds(case["decls"]):
+            ck.count("history:graph=" + kind)
+        if any(1 <= e[3] <= len(case["ops"]) and case["ops"][e[3] - 1][0] != e[0] and e[1] not in ("?", epochs[0])
+               for e in st["ev"]):
+            ck.count("history:callback-triggered-fit-on-later-round-pairs")
+        if any(e["how"] != "identity" for e in st["ev_detail"]):
+            ck.count("history:pairs-identified-by-content(not identity)")
         if any(st["ver"][g] == 0 for h in range(N) if st["ver"][h] > 0 for g in case["decls"][h]):
             ck.count("history:fitted-with-unfitted-conditioner(intermediate)")
         for pred, detail in st["oracle"]:
@@ -421,17 +701,40 @@ def conddist_cases():
     for name, deps in (("sigma<-mu", {"mu": [], "sigma": ["mu"]}), ("mu<-sigma", {"sigma": [], "mu": ["sigma"]}),
                        ("independent", {"mu": [], "sigma": []})):
         for dict_order in (["mu", "sigma"], ["sigma", "mu"]):
-            for rounds in (1, 2):
-                yield {"kind": "conddist", "gen": "conddist", "graph": name, "deps": deps,
+            for rounds in (1, 2, 3):
+                yield {"kind": "conddist", "gen": "conddist", "dist": "normal", "graph": name, "deps": deps,
                        "dict_order": dict_order, "rounds": rounds}
+    # three parameters (alpha, beta, gamma) of a WeibullDistribution: chain, fork-join ("diamond" needs four), a
+    # conditioner bound twice; every order of the parameters dict; fit, re-fit, re-re-fit on different data
+    graphs = (("gamma<-beta<-alpha", {"alpha": [], "beta": ["alpha"], "gamma": ["beta"]}),
+              ("alpha<-beta<-gamma", {"gamma": [], "beta": ["gamma"], "alpha": ["beta"]}),
+              ("gamma<-{alpha,beta<-alpha}", {"alpha": [], "beta": ["alpha"], "gamma": ["alpha", "beta"]}),
+              ("gamma<-(beta,beta)", {"alpha": [], "beta": [], "gamma": ["beta", "beta"]}))
+    for name, deps in graphs:
+        for dict_order in itertools.permutations(["alpha", "beta", "gamma"]):
+            for rounds in (2, 3):
+                yield {"kind": "conddist", "gen": "conddist", "dist": "weibull", "graph": name, "deps": deps,
+                       "dict_order": list(dict_order), "rounds": rounds}
+
+
+def conddist_data(case, r):
+    g = np.random.default_rng(100 + r)
+    cv = [float(v) for v in np.array([1.0, 2.0, 3.0, 4.0, 5.0]) * (1.0 + 0.125 * r)]
+    if case.get("dist", "normal") == "normal":
+        data = [g.normal(1.0 + (0.5 + r) * c, 0.2 + 0.1 * c * (1 + r), 40) for c in cv]
+    else:
+        data = [g.weibull(1.5 + 0.2 * c + 0.1 * r, 60) * (1 + c + r) + 0.5 * c for c in cv]
+    return data, cv
 
 
 def run_conddist(case):
-    from virocon.distributions import ConditionalDistribution, NormalDistribution
+    from virocon.distributions import ConditionalDistribution, NormalDistribution, WeibullDistribution
     from virocon.dependencies import DependenceFunction
 
     deps = case["deps"]
-    order = [p for p in deps if not deps[p]] + [p for p in deps if deps[p]]  # declaration order
+    order = []  # declaration order: conditioners first
+    while len(order) < len(deps):
+        order += [p for p in deps if p not in order and all(g in order for g in deps[p])]
     objs, byname = [], {}
     with warnings.catch_warnings():
         warnings.simplefilter("ignore")
@@ -441,41 +744,65 @@ def run_conddist(case):
             byname[p] = o
             objs.append(o)
         decls = [[order.index(g) for g in deps[p]] for p in order]
-        cd = ConditionalDistribution(NormalDistribution(), {p: byname[p] for p in case["dict_order"]})
-        ops = []
+        template = NormalDistribution() if case.get("dist", "normal") == "normal" else WeibullDistribution()
+        cd = ConditionalDistribution(template, {p: byname[p] for p in case["dict_order"]})
+        handed = {}
         with FitRecorder(objs) as rec:
             err = None
             try:
                 for r in range(case["rounds"]):
-                    g = np.random.default_rng(100 + r)
-                    cv = [1.0, 2.0, 3.0, 4.0, 5.0]
-                    data = [g.normal(1.0 + (0.5 + r) * c, 0.2 + 0.1 * c * (1 + r), 40) for c in cv]
+                    data, cv = conddist_data(case, case.get("_data_round", r))
+                    rec.round = r
                     cd.fit(data, cv, [(c - 0.5, c + 0.5) for c in cv], method="mle")
-                    ops += [[order.index(p), r] for p in cd.conditional_parameters]
+                    # what this round must have handed over (independent of what the objects stored)
+                    handed[r] = (np.asarray(cv, dtype=float),
+                                 {p: [float(pp[p]) for pp in cd.parameters_per_interval] for p in order})
             except Exception as e:  # noqa: BLE001
                 err = f"{type(e).__name__}: {str(e)[:120]}"
+        ops = [[h, r] for h, r in rec.public_seq]
         st = _state(objs, rec, decls)
         if err:
             st["err"] = err
-        # oracle: each function = exact LSQ of its stored data given current conditioners
         bad = []
         if err:
             bad.append(("history_raises", err))
         else:
+            # (the loop runs over cd.conditional_parameters, which follows the template's parameter order, whatever
+            # the order of the dict the user passed)
+            want_ops = [[order.index(p), r] for r in range(case["rounds"]) for p in cd.conditional_parameters]
+            if ops != want_ops:
+                bad.append(("conddist_fits_every_parameter_once_per_fit",
+                            f"public fit calls (function, round) {ops}, expected {want_ops}"))
+            bad += inputs_oracle(st)
+            r_last = case["rounds"] - 1
+            x, ys = handed[r_last]
             for h, o in enumerate(objs):
                 if st["ver"][h] == 0:
                     bad.append(("all_called_all_fitted", f"parameter {order[h]} never fitted"))
                     continue
-                # the data the ConditionalDistribution must have handed over (independent of what the object stored)
-                x = np.asarray(cd.conditioning_values, dtype=float)
-                y_handed = [pp[order[h]] for pp in cd.parameters_per_interval]
+                y_handed = ys[order[h]]
+                # the pairs each public call received = (conditioning values, that parameter's interval estimates)
+                for pc in rec.public[h]:
+                    xr, yr = handed[pc["epoch"]]
+                    if not (_same_content(pc["x"], xr) and _same_content(pc["y"], yr[order[h]])):
+                        bad.append(("conddist_passes_interval_parameters",
+                                    f"{order[h]}, round {pc['epoch']}: the pairs handed to fit are not (conditioning "
+                                    f"values, interval estimates of {order[h]})"))
+                        break
                 s = sum(np.asarray(objs[g](x), dtype=float) for g in decls[h]) if decls[h] else x
                 sol = exact_lsq([[Fraction(1), fr(v)] for v in s], [fr(v) for v in y_handed], [Fraction(1)] * len(x))
                 if sol is not None and not close_params(st["params"][h], [float(v) for v in sol]):
                     bad.append(("fitted_after_conditioners",
-                                f"{order[h]}: {st['params'][h]} vs fit given current conditioners {[float(v) for v in sol]}"))
-                if getattr(o, "y", None) is not None and list(o.y) != y_handed:
-                    bad.append(("conddist_passes_interval_parameters", f"{order[h]}: y handed to fit differs"))
+                                f"{order[h]}: {st['params'][h]} vs fit of the last round's pairs given current "
+                                f"conditioners {[float(v) for v in sol]}"))
+            # re-fit = fresh fit: a fresh ConditionalDistribution fitted once to the last round's data
+            if case["rounds"] > 1 and not bad:
+                fresh = run_conddist(dict(case, rounds=1, _data_round=r_last))[0]
+                for h in range(len(objs)):
+                    if "params" in fresh and not close_params(st["params"][h], fresh["params"][h], tol=1e-4):
+                        bad.append(("refit_equals_fresh_fit",
+                                    f"{order[h]}: {st['params'][h]} after {case['rounds']} fits, {fresh['params'][h]} "
+                                    f"for a fresh model fitted to the last round's data"))
         st["oracle"] = bad
     return st, decls, ops
 
@@ -490,6 +817,9 @@ def process_conddist(ck):
         ck.case(full, nontrivial=any(decls), sample=(case["rounds"] == 2 and case["graph"] == "mu<-sigma"
                                                       and case["dict_order"] == ["mu", "sigma"]))
         ck.count("history:conddist")
+        ck.count(f"history:conddist:rounds={case['rounds']}")
+        for kind in graph_kinds(decls):
+            ck.count("history:conddist:graph=" + kind)
         for pred, detail in st["oracle"]:
             ck.fail({"entry": "ConditionalDistribution.fit", "predicate": pred}, full, detail)
         d = compare_history(st, parse_proto(ans, decls))
@@ -744,7 +1074,8 @@ def run_fit_impl(case):
                 toks = ["OK", "curve_fit"] + fl(c["p0"])
                 toks += ["-"] if c["sigma"] is None else fl(c["sigma"])
                 toks += ["-"] if c["bounds"] is None else fl(c["bounds"][0]) + fl(c["bounds"][1])
-                ok_args = c["f"] is dep and c["x"] is x and c["y"] is y and not c["extra"] and c["nargs"] == 0
+                ok_args = (c["f"] is dep and (c["x"] is x or _same_content(c["x"], x))
+                           and (c["y"] is y or _same_content(c["y"], y)) and not c["extra"] and c["nargs"] == 0)
             else:
                 toks = ["OK", "slsqp"] + fl(c["p0"])
                 if c["bounds"] is None:
@@ -1078,19 +1409,30 @@ def main(ck):
     rng = np.random.default_rng(ck.seed)
     thorough = ck.tier == "thorough"
     ck.rule = (
-        "corpus witnesses first; protocol histories: every labelled DAG (conditioners of h among 0..h-1, i.e. every "
+        "corpus witnesses first; protocol histories (a history = public fit calls (function, round), every round with "
+        "its own pairs): every labelled DAG (conditioners of h among 0..h-1, i.e. every "
         "DAG shape with every construction-compatible declaration order) with <= 3 functions x every call sequence "
-        "of length <= 4 and every pair of one-round orders (fit + re-fit), all 64 DAGs with 4 functions x all 24 "
-        "one-round orders, two rounds complete for chain-4/diamond (and for all 64 DAGs in the thorough tier, "
-        "sampled otherwise), swapped keyword order, a conditioner bound twice, random DAGs with 5-7 functions and "
-        "histories up to length 27, ConditionalDistribution.fit with permuted dicts; numeric: 12 shapes x bounds "
+        "of length <= 4 and every pair of one-round orders (fit + re-fit on new pairs), all 64 DAGs with 4 functions x "
+        "all 24 one-round orders, two rounds complete for chain-4/diamond (and for all 64 DAGs in the thorough tier, "
+        "sampled otherwise), swapped keyword order, a conditioner bound twice; 700 (thorough 20000) random round "
+        "histories on chains of 2-5, diamonds (+tails), a conditioner bound twice, random DAGs with 2-6 functions: 1-3 "
+        "rounds, each a random permutation (= order of the parameters dict; sometimes a function twice) or a random "
+        "proper subset (partial round); random DAGs with 5-7 functions and "
+        "histories up to length 27 with rounds 0-2 in any order; ConditionalDistribution.fit (Normal: 2 parameters, "
+        "Weibull: 3 parameters; chain, fork-join, conditioner bound twice) with every order of the parameters dict, "
+        "1-3 fits on different data; numeric: 12 shapes x bounds "
         "none/inactive/active x weights kinds x constraints dict/list active/inactive, 3-20 points. A history is "
         "non-trivial if it has >= 2 calls and calls a function that has a conditioner; a fit case if the fit "
         "returned and has >= 3 points; distinct by SHA1 of the case"
     )
     ck.assumptions = [
-        "a `_fit` execution is modelled as an event (version bump); its numerical result is checked by the oracle, "
-        "not by the model",
+        "a `_fit` execution is modelled as an event (version bump) with its inputs (epoch of the pairs, start-value "
+        "token, number of the public call); its numerical result is checked by the oracle, not by the model",
+        "the x/y objects that reach the optimiser are mapped to the public call that supplied them by object identity "
+        "(fallback: equal content); every public call of the harness hands over fresh array objects and every round "
+        "has different values",
+        "start values are mapped to a token by exact equality with the parameter values after construction (0) or "
+        "with the result of an earlier fit of the same function (k)",
         "no exception is raised inside a cascade of callbacks (none was observed; an exception is reported as violation)",
         "constraint dicts are identified by object identity at the optimiser call",
         "linear shapes: design rows are f(x; e_j) evaluated by the real callable; exactness is relative to these doubles",
@@ -1142,15 +1484,24 @@ def replay(ck, payload):
             print("oracle:", pred, detail)
             ok = False
         print("impl log:", st["log"], "may_fit:", st["may"], "params:", st["params"])
+        print("impl _fit inputs [function, data epoch, start-value token, public call]:", st["ev"])
         if ck.driver:
-            ans = ck.driver.run([history_model_line(case)])[0]
-            print("correspondence:", compare_history(st, parse_proto(ans, case["decls"])))
+            ans, ans_stale = ck.driver.run([history_model_line(case), history_model_line(case, "protostale")])
+            m = parse_proto(ans, case["decls"])
+            print("model _fit inputs:", m.get("ev"))
+            print("correspondence:", compare_history(st, m))
+            ms = parse_proto(ans_stale, case["decls"])
+            if st["ev"] != m.get("ev") and [e[:2] for e in st["ev"]] == [e[:2] for e in ms.get("ev", [])]:
+                print("note: the observed (function, data epoch) sequence is the one of the model variant "
+                      "`fitCallStale` (pairs stored only when the fit is deferred), see "
+                      "C14.stale_variant_refits_old_pairs")
     elif case["kind"] == "conddist":
         st, decls, ops = run_conddist(case)
         for pred, detail in st["oracle"]:
             print("oracle:", pred, detail)
             ok = False
         print("impl log:", st["log"])
+        print("impl _fit inputs [function, data epoch, start-value token, public call]:", st["ev"])
     elif case["kind"] == "cbounds":
         for pred, detail in oracle_cbounds(case):
             print("oracle:", pred, detail)
